@@ -53,7 +53,7 @@ func kvAttr(a kv) slog.Attr {
 		for _, m := range a.G {
 			ms = append(ms, kvAttr(m))
 		}
-		return slog.NewGroupedAttr(a.K, ms...)
+		return mkGroup(a.K, ms)
 	}
 	return slog.NewAttr(a.K, a.ID)
 }
@@ -569,12 +569,13 @@ func ctxSets() []ctxSet {
 		{keys: []string{"S:ctxS", "s:a", "x:other"}, has: []string{"S:ctxS", "s:a", "x:other"}},
 		{keys: []string{"s:absent", "s:ctxs", "S:gone", "S:ctxS"}, has: []string{"s:ctxs", "S:ctxS"}},
 		{keys: []string{"s:ctxs"}, has: nil, nilCtx: true},
+		{keys: []string{"s:k6", "s:k5", "S:k4", "s:k3", "x:k2", "s:k1", "s:ctxs"}, has: []string{"s:k6", "s:k5", "S:k4", "s:k1", "s:ctxs", "x:k2"}},
 	}
 }
 
 func c07cases(thorough bool, emit func(c07case)) {
 	maxDepth := 3
-	sizes := []int{0, 1, 2, 3, 12, 13, 14}
+	sizes := []int{0, 1, 2, 3, 12, 13, 14, 17, 33}
 	if thorough {
 		maxDepth = 4
 		sizes = append(sizes, 64)
@@ -604,7 +605,7 @@ func c07cases(thorough bool, emit func(c07case)) {
 				for si, cs := range ctxSets() {
 					// the full cross product is used for short chains; for longer chains
 					// the context sets rotate (every set still meets every chain shape class)
-					if len(ch) >= 3 && !thorough && si != ci%6 {
+					if len(ch) >= 3 && !thorough && si != ci%7 {
 						continue
 					}
 					for _, r := range []bool{false, true} {
